@@ -240,13 +240,32 @@ def run(ctx: Ctx) -> RuleResult:
     load = loads[0]
     guards = [a for a in ancestors(load) if isinstance(a, ast.If) and any(load is x for s in a.body for x in ast.walk(s))]
     gtext = ' and '.join(norm(g.test) for g in guards if id(g) in cache_nodes and g is not cache_if)
+    # names holding the key or something computed from it (its encoded form kept in a local)
+    key_derived: Dict[str, Optional[str]] = {key_var: None}
+    for _round in range(3):
+        for n_ in f.body_nodes():
+            if isinstance(n_, ast.Assign) and len(n_.targets) == 1 and isinstance(n_.targets[0], ast.Name) and n_.targets[0].id not in key_derived:
+                used = {x.id for x in ast.walk(n_.value) if isinstance(x, ast.Name)}
+                if used & set(key_derived) and not isinstance(n_.value, ast.Constant):
+                    encs = [norm(c_) for c_ in ast.walk(n_.value) if isinstance(c_, ast.Call) and isinstance(c_.func, ast.Attribute)
+                            and c_.func.attr == 'encode' and norm(c_.func.value) in key_derived]
+                    if encs:        # only encoded forms count as "the key in another representation"
+                        key_derived[n_.targets[0].id] = encs[0]
+
+    def _enc_of(node: ast.AST) -> List[str]:
+        out_ = [norm(c_) for c_ in ast.walk(node) if isinstance(c_, ast.Call) and isinstance(c_.func, ast.Attribute) and c_.func.attr == 'encode'
+                and norm(c_.func.value) == key_var]
+        out_ += [key_derived[x.id] for x in ast.walk(node) if isinstance(x, ast.Name) and key_derived.get(x.id)]
+        return out_
     hdr_ok = False
+    hdr_cmp = None
     for g in guards:
         for c in ast.walk(g.test):
             if isinstance(c, ast.Compare) and len(c.ops) == 1 and isinstance(c.ops[0], ast.Eq):
                 names = {x.id for x in ast.walk(c) if isinstance(x, ast.Name)}
-                if key_var in names:
+                if names & set(key_derived):
                     hdr_ok = True
+                    hdr_cmp = c
     ver_ok = any(isinstance(c, ast.Call) and norm(c.func) == 'verify_used_files' for g in guards for c in ast.walk(g.test))
     res.ob(site, 'g: _load dominated by header == key (%s)' % gtext, hdr_ok)
     if not hdr_ok:
@@ -385,7 +404,7 @@ def run(ctx: Ctx) -> RuleResult:
             for c in ast.walk(st):
                 if isinstance(c, ast.Call):
                     t = norm(c.func)
-                    if t.endswith('.write') and key_var in {x.id for x in ast.walk(c) if isinstance(x, ast.Name)}:
+                    if t.endswith('.write') and set(key_derived) & {x.id for x in ast.walk(c) if isinstance(x, ast.Name)}:
                         worder.append('header')
                     elif t == 'pickle.dump' and c.args and norm(c.args[0]) in used_files_locals:
                         worder.append('used_files')
@@ -414,8 +433,8 @@ def run(ctx: Ctx) -> RuleResult:
     if not ok:
         res.finding(f, wif or f.node, 'the cache does not strip the load-allowed options from the stored data', construct='w:exclude')
     # header encoding agreement
-    enc_w = [norm(c) for c in ast.walk(wif or f.node) if isinstance(c, ast.Call) and norm(c.func) == key_var + '.encode']
-    enc_r = [norm(c) for c in ast.walk(the_try) if isinstance(c, ast.Call) and norm(c.func) == key_var + '.encode']
+    enc_w = [e_ for c in ast.walk(wif or f.node) if isinstance(c, ast.Call) and norm(c.func).endswith('.write') for e_ in _enc_of(c)]
+    enc_r = _enc_of(hdr_cmp) if hdr_cmp is not None else []
     ok = bool(enc_w) and enc_w[:1] == enc_r[:1]
     res.ob(site, 'w: header written as %s, compared with %s' % (enc_w[:1], enc_r[:1]), ok)
     if not ok:
